@@ -586,6 +586,18 @@ fn reply_corpus(rng: &mut Rng) -> Vec<Vec<Vec<u8>>> {
             out.push(vec![name.to_vec(), b"k".to_vec(), n.clone(), n.clone()]);
         }
     }
+    // integer replies at the ends of the i64 range (reached by ordinary counter commands)
+    let bv = |s: &str| s.as_bytes().to_vec();
+    for seq in [
+        vec![vec!["SET", "cnt", "-9223372036854775807"], vec!["DECR", "cnt"], vec!["INCRBY", "cnt", "0"], vec!["GET", "cnt"], vec!["DECR", "cnt"]],
+        vec![vec!["SET", "cnt", "9223372036854775806"], vec!["INCR", "cnt"], vec!["DECRBY", "cnt", "0"], vec!["INCR", "cnt"], vec!["STRLEN", "cnt"]],
+        vec![vec!["SET", "cnt", "0"], vec!["DECRBY", "cnt", "9223372036854775807"], vec!["DECR", "cnt"], vec!["HINCRBY", "hcnt", "f", "-9223372036854775808"], vec!["HINCRBY", "hcnt", "g", "9223372036854775807"]],
+        vec![vec!["INCRBY", "c2", "-1"], vec!["INCRBY", "c2", "-9"], vec!["INCRBY", "c2", "-90"], vec!["INCRBY", "c2", "1000000000000000000"], vec!["LPUSH", "l2", "a"], vec!["LLEN", "l2"], vec!["TTL", "l2"], vec!["TTL", "nokey"]],
+    ] {
+        for c in seq {
+            out.push(c.into_iter().map(bv).collect());
+        }
+    }
     for _ in 0..300 {
         let name = names[rng.gen_range(0..names.len())].to_vec();
         let mut a = vec![name];
@@ -595,6 +607,56 @@ fn reply_corpus(rng: &mut Rng) -> Vec<Vec<Vec<u8>>> {
         out.push(a);
     }
     out
+}
+
+/// A value a script can return: integers (incl. the ends of the range), strings, status / error tables, arrays.
+fn gen_lua_tree(rng: &mut Rng, depth: usize) -> Tree {
+    match if depth >= 2 { rng.gen_range(0..4) } else { rng.gen_range(0..6) } {
+        0 => Tree::Int(*[i64::MIN, i64::MIN + 1, i64::MAX, 0, -1, 1, -9, -10, 10, 99, -100, 1234567890123, -1234567890123].get(rng.gen_range(0..13)).unwrap()),
+        1 => Tree::Int(rng.gen()),
+        2 => Tree::Bulk(Some(gen_bytes(rng, false))),
+        3 => {
+            if rng.gen_bool(0.5) {
+                Tree::Simple(gen_bytes(rng, true))
+            } else {
+                Tree::Error(gen_bytes(rng, true))
+            }
+        }
+        _ => Tree::Arr(Some((0..rng.gen_range(0..4)).map(|_| gen_lua_tree(rng, depth + 1)).collect())),
+    }
+}
+
+fn lua_str(b: &[u8]) -> String {
+    let mut s = String::from("'");
+    for &c in b {
+        s.push_str(&format!("\\{:03}", c));
+    }
+    s.push('\'');
+    s
+}
+
+fn lua_expr(t: &Tree) -> String {
+    match t {
+        Tree::Int(n) if *n == i64::MIN => "math.mininteger".to_string(),
+        Tree::Int(n) => format!("({})", n),
+        Tree::Bulk(Some(b)) => lua_str(b),
+        Tree::Bulk(None) => "false".to_string(),
+        Tree::Simple(b) => format!("{{ok={}}}", lua_str(b)),
+        Tree::Error(b) => format!("{{err={}}}", lua_str(b)),
+        Tree::Arr(Some(v)) => format!("{{{}}}", v.iter().map(lua_expr).collect::<Vec<_>>().join(",")),
+        Tree::Arr(None) => "{}".to_string(),
+    }
+}
+
+fn tree_class(t: &Tree) -> &'static str {
+    match t {
+        Tree::Int(n) if *n == i64::MIN || *n == i64::MAX => "int-extreme",
+        Tree::Int(_) => "int",
+        Tree::Bulk(_) => "bulk",
+        Tree::Simple(_) => "status",
+        Tree::Error(_) => "error",
+        Tree::Arr(_) => "array",
+    }
 }
 
 fn check_emitted(rep: &mut Report, what: &str, encoder: &str, bytes: &[u8], expect: Option<&Tree>, wit: serde_json::Value) {
@@ -709,7 +771,34 @@ pub fn reply_leg(args: &Args) {
     let rt = tokio::runtime::Builder::new_current_thread().enable_all().build().unwrap();
     rt.block_on(async {
         let state = ShardedActorState::with_shards(2);
+        // twin with the same shard count, driven through the API: what value the connection had to encode
+        let twin = ShardedActorState::with_shards(2);
+        const DATA: [&str; 30] = ["GET", "SET", "TYPE", "INCR", "INCRBY", "DECR", "DECRBY", "HSET", "HGET", "LPUSH", "LRANGE", "SADD", "ZADD", "ZRANGE", "ZSCORE", "EXPIRE", "SETEX", "APPEND",
+            "GETRANGE", "MGET", "EXISTS", "DEL", "DBSIZE", "LINDEX", "LSET", "HINCRBY", "SETRANGE", "STRLEN", "LLEN", "TTL"];
         for argv in &corpus {
+            let mut expect: Option<Tree> = None;
+            {
+                let frame = myresp::frame_v(argv);
+                let mut buf = BytesMut::from(&frame[..]);
+                if let Ok(Ok(Some(zc))) = guard(|| RespCodec::parse(&mut buf)) {
+                    let nm = String::from_utf8_lossy(&argv[0]).to_uppercase();
+                    if nm == "SPOP" {
+                        continue; // random choice: the two servers would legitimately part ways
+                    }
+                    if let Ok(Ok(cmd)) = guard(|| Command::from_resp_zero_copy(&zc)) {
+                        // every command runs on the twin (same state evolution); only data commands are compared
+                        let r = twin.execute(&cmd).await;
+                        if DATA.contains(&nm.as_str()) {
+                            // TTL of a key with a deadline depends on the wall clock: only the no-deadline answers are compared
+                            let skip = nm == "TTL" && matches!(r, RespValue::Integer(n) if n >= 0);
+                            if !skip {
+                                expect = Some(myresp::from_resp(&r));
+                                rep.count("connection_replies_compared_with_api_twin");
+                            }
+                        }
+                    }
+                }
+            }
             let (ctl, h) = conn::spawn_conn(state.clone(), ConnectionConfig::default());
             let frame = myresp::frame_v(argv);
             ctl.send(&frame);
@@ -738,7 +827,36 @@ pub fn reply_leg(args: &Args) {
                 rep.violation(format!("C15|reply|connection|no-reply|{}", name), "no bytes written for a complete frame", wit);
                 continue;
             }
-            check_emitted(&mut rep, &name, "encode_resp_into", &out, None, wit);
+            check_emitted(&mut rep, &name, "encode_resp_into", &out, expect.as_ref(), wit);
+        }
+        // (d) synthetic values through the connection's encoder: an EVAL script returns the tree; the same
+        //     script run through the API on the twin says which value the connection was given to encode
+        if cfg!(feature = "lua") {
+            let n = args.get_u64("lua-trees", if args.thorough() { 6_000 } else { 600 });
+            for i in 0..n {
+                let t = gen_lua_tree(&mut rng, 0);
+                let script = format!("return {}", lua_expr(&t));
+                let cmd = Command::Eval { script: script.clone(), keys: vec![], args: vec![] };
+                let exp = myresp::from_resp(&twin.execute(&cmd).await);
+                let (ctl, h) = conn::spawn_conn(state.clone(), ConnectionConfig::default());
+                ctl.send(&myresp::frame(&[b"EVAL", script.as_bytes(), b"0"]));
+                let idle = ctl.wait_idle(conn::STEP_BUDGET).await;
+                let out = ctl.take_output();
+                ctl.close();
+                let _ = ctl.wait_idle(conn::STEP_BUDGET).await;
+                let _ = h.await;
+                rep.evaluations += 1;
+                rep.count("lua_trees_through_connection");
+                if idle.is_err() {
+                    rep.inconclusive("connection never returned to read for an EVAL frame");
+                    continue;
+                }
+                rep.distinct(&format!("lua:{:?}", shape(&exp)));
+                check_emitted(&mut rep, &format!("lua:{}", tree_class(&exp)), "encode_resp_into", &out, Some(&exp), json!({"script": script}));
+                if i < 1 {
+                    rep.sample(json!({"script": script, "api_value": myresp::show(&exp), "connection_bytes": lossy(&out)}));
+                }
+            }
         }
     });
     rep.sample(json!({"argv": ["A\\r\\nB"], "checked": "RespParser::encode, encode_resp_into (via H1) re-decoded by the independent decoder"}));
